@@ -131,6 +131,49 @@ fn reuse_pass<F: Function<Trace = VmTrace>>(cx: &mut Ctx, backend: &str, n: usiz
         if r1_failed(&mut fe) { fe = F::new_float_slice_eval(); }
     }
 }
+
+/// Tracing evaluators kept across functions with different numbers of clauses (the renderers do this: one evaluator per
+/// worker, a new tape after every simplification): the trace of each evaluation must still be what *its* operands imply.
+fn reuse_tracing<F: Function<Trace = VmTrace>>(cx: &mut Ctx, backend: &str, n: usize, fns: &[(F, Prog, Vec<ClauseSpec>, Mode)], rng: &mut Rng) {
+    use fidget_core::eval::TracingEvaluator;
+    let mut pe = F::new_point_eval();
+    let mut ie = F::new_interval_eval();
+    for (f, p, specs, mode) in fns {
+        let cl: Vec<_> = specs.iter().map(|c| c.json()).collect();
+        let pts = pgen::input_points(rng, *mode, p.nvars, 2);
+        let bxs = boxes(rng, p.nvars, 2);
+        let ptape = f.point_tape(Default::default());
+        let itape = f.interval_tape(Default::default());
+        for pt in &pts {
+            let r = vharness::catch(std::panic::AssertUnwindSafe(|| pe.eval(&ptape, pt).map(|(o, t)| (o.to_vec(), t.map(trace_codes)))));
+            let (out, trace, err, panic) = match r {
+                Ok(Ok((o, t))) => (o, t, String::new(), false),
+                Ok(Err(e)) => (vec![], None, format!("{e}"), false),
+                Err(m) => { pe = F::new_point_eval(); (vec![], None, m, true) }
+            };
+            let j = json!({"ev": "trace", "id": cx.id, "backend": backend, "n": n, "kind": "point", "nout": p.nout(), "reused": true,
+                "nch": specs.len(), "clauses": cl, "in": pt.iter().map(|v| bits(*v)).collect::<Vec<_>>(),
+                "out": out.iter().map(|v| [bits(*v), bits(*v)]).collect::<Vec<_>>(),
+                "has": trace.is_some(), "trace": trace.unwrap_or_default(), "err": err, "panic": panic, "ssa": ops_json(&p.ssa)});
+            writeln!(cx.w, "{j}").unwrap();
+            cx.id += 1;
+        }
+        for bx in &bxs {
+            let r = vharness::catch(std::panic::AssertUnwindSafe(|| ie.eval(&itape, bx).map(|(o, t)| (o.to_vec(), t.map(trace_codes)))));
+            let (out, trace, err, panic) = match r {
+                Ok(Ok((o, t))) => (o, t, String::new(), false),
+                Ok(Err(e)) => (vec![], None, format!("{e}"), false),
+                Err(m) => { ie = F::new_interval_eval(); (vec![], None, m, true) }
+            };
+            let j = json!({"ev": "trace", "id": cx.id, "backend": backend, "n": n, "kind": "interval", "nout": p.nout(), "reused": true,
+                "nch": specs.len(), "clauses": cl, "in": bx.iter().map(ibits).collect::<Vec<_>>(),
+                "out": out.iter().map(ibits).collect::<Vec<_>>(),
+                "has": trace.is_some(), "trace": trace.unwrap_or_default(), "err": err, "panic": panic, "ssa": ops_json(&p.ssa)});
+            writeln!(cx.w, "{j}").unwrap();
+            cx.id += 1;
+        }
+    }
+}
 fn r1_failed<T>(_e: &mut T) -> bool { false }
 
 fn vm_case<const N: usize>(cx: &mut Ctx, p: &Prog, specs: &[ClauseSpec], pts: &[Vec<f32>], bxs: &[Vec<Interval>]) {
@@ -199,6 +242,16 @@ fn main() {
     }
     reuse_pass(&mut cx, "jit", 12, &jfns, &mut rng);
     reuse_pass(&mut cx, "vm", 255, &vfns, &mut rng);
+    // tracing evaluators kept across functions whose clause counts differ (every third program, so that neighbours differ)
+    let mut jt = vec![];
+    let mut vt = vec![];
+    for (p0, mode) in progs.iter().step_by(if quick { 3 } else { 1 }) {
+        let (p, specs) = export_clause_operands(p0);
+        if let Ok(f) = jit_fn(&p) { jt.push((f, p.clone(), specs.clone(), *mode)); }
+        if let Ok(f) = vm_fn::<255>(&p) { vt.push((f, p, specs, *mode)); }
+    }
+    reuse_tracing(&mut cx, "jit", 12, &jt, &mut rng);
+    reuse_tracing(&mut cx, "vm", 255, &vt, &mut rng);
     let n = cx.id;
     file.flush().unwrap();
     vharness::evalx::exit_on_build_failures("c20");
